@@ -65,8 +65,11 @@ package pow
 
 // requiredTrailingZeros: whatever the floating-point estimate was, the returned count z satisfies the
 // score formula itself, 3^z / msgLen >= target in the sense of the comparison the loop uses (or exceeds
-// 243, which the worker rejects), and it is never the conversion of a negative number.
+// 243, which the worker rejects); and when the estimate is not positive the count is reached from zero,
+// every smaller count failing the formula (so a negative estimate is never converted to uint).
+//@ spec fscore(k int, msgLen int) float64 = math.Pow(consts.TrinaryRadix, float64(uint(k))) / float64(msgLen)
 //@ func requiredTrailingZeros(msgLen int, targetScore float64) (r uint)
 //@   panics  never
-//@   loop 1 invariant true
+//@   loop 1 invariant implies(!(math.Ceil(math.Log(float64(msgLen)*targetScore)/ln3) > 0), forall(k, 0, int(zeros), fscore(k, msgLen) < targetScore))
 //@   ensures r > 243 || !(math.Pow(consts.TrinaryRadix, float64(r)) / float64(msgLen) < targetScore)
+//@   ensures implies(!(math.Ceil(math.Log(float64(msgLen)*targetScore)/ln3) > 0), forall(k, 0, int(r), fscore(k, msgLen) < targetScore))
